@@ -25,6 +25,8 @@ NOISE_PROBES = (-13, -8, -5, -3, -2, -1, 1, 2, 3, 5, 8, 13)
 class _NonFinite(Exception):
     pass
 
+ANCHORS = [('mixtures/mixture.py', 'gamma_2 = numpy.exp(', 'UNIQUAC gamma_2'), ('mixtures/mixture.py', 'alphas = [mixture.nrtl_params.alpha12, mixture.nrtl_params.alpha21]', 'NRTL with two non-randomness factors')]
+
 
 def shards(tier, seed):
     n = {"quick": 1200, "thorough": 100000}[tier]
